@@ -9,6 +9,9 @@ import time
 VERIF = os.path.dirname(os.path.dirname(os.path.abspath(__file__)))
 
 
+LAST = {"keys": [], "known": []}  # violation keys of the most recent Report.finish() (used by the generic replay)
+
+
 def load_findings():
     with open(os.path.join(VERIF, "known_findings.json")) as f:
         return json.load(f)
@@ -59,7 +62,7 @@ class Report:
         safe = "".join(c if c.isalnum() or c in "-_." else "_" for c in key)[:80]
         path = os.path.join(VERIF, "replays", f"{self.pid}_{safe}.json")
         with open(path, "w") as f:
-            json.dump({"property": self.pid, "key": key, "what": what, "replay": replay}, f, indent=1, default=str)
+            json.dump({"property": self.pid, "key": key, "what": what, "tier": self.tier, "seed": self.seed, "replay": replay}, f, indent=1, default=str)
         self.violations.append((key, what, path))
 
     def finish(self) -> int:
@@ -90,6 +93,8 @@ class Report:
         os.makedirs(os.path.join(VERIF, "evidence"), exist_ok=True)
         with open(os.path.join(VERIF, "evidence", f"{self.pid}.json"), "w") as f:
             json.dump(ev, f, indent=1, default=str)
+        LAST["keys"] = [v[0] for v in self.violations]
+        LAST["known"] = sorted(self.known_hit)
         for key, what in sorted(self.known_hit.items()):
             print(f"KNOWN-FINDING: property={self.pid} {key}: {what}")
         for key, what, path in self.violations:
